@@ -237,16 +237,31 @@ def dominating_tests(node, stop=None):
             break
         if isinstance(p, ast.If) or isinstance(p, ast.While):
             if _in_list(child, p.body):
-                out.append((p.test, True))
+                out.append(_positive(p.test, True))
             elif _in_list(child, p.orelse):
-                out.append((p.test, False))
+                out.append(_positive(p.test, False))
         elif isinstance(p, ast.IfExp):
             if child is p.body:
-                out.append((p.test, True))
+                out.append(_positive(p.test, True))
             elif child is p.orelse:
-                out.append((p.test, False))
+                out.append(_positive(p.test, False))
         child = p
     return out
+
+
+def if_arms(node):
+    """(test, body-when-true, body-when-false) of an `if`, with `not X` tests turned around"""
+    test, body, orelse = node.test, node.body, node.orelse
+    while isinstance(test, ast.UnaryOp) and isinstance(test.op, ast.Not):
+        test, body, orelse = test.operand, orelse, body
+    return test, body, orelse
+
+
+def _positive(test, pol):
+    """(`not X`, p) is reported as (X, not p): rules do not depend on how a branch is spelled"""
+    while isinstance(test, ast.UnaryOp) and isinstance(test.op, ast.Not):
+        test, pol = test.operand, not pol
+    return (test, pol)
 
 
 def _in_list(node, lst):
@@ -268,7 +283,7 @@ def early_exit_guards(func, node):
                         break
                     if isinstance(st, ast.If) and not st.orelse and st.body and \
                             isinstance(st.body[-1], (ast.Return, ast.Raise, ast.Continue, ast.Break)):
-                        out.append((st.test, False))
+                        out.append(_positive(st.test, False))
         if p is func:
             break
         child = p
@@ -315,9 +330,9 @@ def _stmt_paths(st, limit):
     if isinstance(st, ast.If):
         out = []
         for q in paths(st.body, limit):
-            out.append(Path([st] + q.stmts, [(st.test, True)] + q.conds, q.end))
+            out.append(Path([st] + q.stmts, [_positive(st.test, True)] + q.conds, q.end))
         for q in paths(st.orelse, limit):
-            out.append(Path([st] + q.stmts, [(st.test, False)] + q.conds, q.end))
+            out.append(Path([st] + q.stmts, [_positive(st.test, False)] + q.conds, q.end))
         return out
     if isinstance(st, (ast.For, ast.While)):
         out = []
